@@ -32,7 +32,7 @@ func queueProgs(q *loom.Queue, spec string) [][]coop.Op {
 				})
 			} else if strings.HasPrefix(o, "P") {
 				v := atoi(o[1:])
-				ops = append(ops, func() string { q.Push(v); return "push" })
+				ops = append(ops, func() string { queuePush(q, v); return "push" })
 			} else {
 				panic("bad op " + o)
 			}
@@ -42,14 +42,31 @@ func queueProgs(q *loom.Queue, spec string) [][]coop.Op {
 	return progs
 }
 
+// queuePush: value 0 stands for Push(nil) (the queue tolerates nil values: such a Pop returns nil)
+func queuePush(q *loom.Queue, v int) {
+	if v == 0 {
+		q.Push(nil)
+	} else {
+		q.Push(v)
+	}
+}
+
+// drain pops until 8 Pops in a row returned nil (nil VALUES may be queued); trailing nils are dropped
 func drain(q *loom.Queue) string {
 	var l []string
-	for n := 0; n < 100000; n++ {
+	nils := 0
+	for n := 0; n < 100000 && nils < 8; n++ {
 		v := q.Pop()
 		if v == nil {
-			break
+			nils++
+			l = append(l, "nil")
+			continue
 		}
+		nils = 0
 		l = append(l, fmt.Sprint(v))
+	}
+	for len(l) > 0 && l[len(l)-1] == "nil" {
+		l = l[:len(l)-1]
 	}
 	return "[" + strings.Join(l, ",") + "]"
 }
@@ -59,7 +76,7 @@ func init() {
 		m := kv(toks[1:])
 		q := loom.NewQueue()
 		for _, v := range intList(m["pre"]) {
-			q.Push(v)
+			queuePush(q, v)
 		}
 		s := coop.New(queueProgs(q, m["progs"]))
 		loom.VerifYield = s.Yield
